@@ -464,67 +464,51 @@ pub(crate) fn solve_expression(
                         (Value::Float(x), BoolSym::Equal, Value::Float(y)) => x == y,
                         (Value::Int(x), BoolSym::Equal, Value::Int(y)) => x == y,
                         (Value::UInt(x), BoolSym::Equal, Value::UInt(y)) => x == y,
-                        (Value::UInt(x), BoolSym::Equal, Value::Int(y)) if x <= i64::MAX as u64 => {
-                            x as i64 == y
+                        (Value::UInt(x), BoolSym::Equal, Value::Int(y)) => {
+                            (x as i128) == (y as i128)
                         }
-                        (Value::Int(x), BoolSym::Equal, Value::UInt(y)) if y <= i64::MAX as u64 => {
-                            x == y as i64
+                        (Value::Int(x), BoolSym::Equal, Value::UInt(y)) => {
+                            (x as i128) == (y as i128)
                         }
                         (_, BoolSym::Equal, _) => false,
                         (Value::Float(x), BoolSym::GreaterThan, Value::Float(y)) => x > y,
                         (Value::Int(x), BoolSym::GreaterThan, Value::Int(y)) => x > y,
                         (Value::UInt(x), BoolSym::GreaterThan, Value::UInt(y)) => x > y,
-                        (Value::UInt(x), BoolSym::GreaterThan, Value::Int(y))
-                            if x <= i64::MAX as u64 =>
-                        {
-                            x as i64 > y
+                        (Value::UInt(x), BoolSym::GreaterThan, Value::Int(y)) => {
+                            (x as i128) > (y as i128)
                         }
-                        (Value::Int(x), BoolSym::GreaterThan, Value::UInt(y))
-                            if y <= i64::MAX as u64 =>
-                        {
-                            x > y as i64
+                        (Value::Int(x), BoolSym::GreaterThan, Value::UInt(y)) => {
+                            (x as i128) > (y as i128)
                         }
                         (_, BoolSym::GreaterThan, _) => false,
                         (Value::Float(x), BoolSym::GreaterThanOrEqual, Value::Float(y)) => x >= y,
                         (Value::Int(x), BoolSym::GreaterThanOrEqual, Value::Int(y)) => x >= y,
                         (Value::UInt(x), BoolSym::GreaterThanOrEqual, Value::UInt(y)) => x >= y,
-                        (Value::UInt(x), BoolSym::GreaterThanOrEqual, Value::Int(y))
-                            if x <= i64::MAX as u64 =>
-                        {
-                            x as i64 >= y
+                        (Value::UInt(x), BoolSym::GreaterThanOrEqual, Value::Int(y)) => {
+                            (x as i128) >= (y as i128)
                         }
-                        (Value::Int(x), BoolSym::GreaterThanOrEqual, Value::UInt(y))
-                            if y <= i64::MAX as u64 =>
-                        {
-                            x >= y as i64
+                        (Value::Int(x), BoolSym::GreaterThanOrEqual, Value::UInt(y)) => {
+                            (x as i128) >= (y as i128)
                         }
                         (_, BoolSym::GreaterThanOrEqual, _) => false,
                         (Value::Float(x), BoolSym::LessThan, Value::Float(y)) => x < y,
                         (Value::Int(x), BoolSym::LessThan, Value::Int(y)) => x < y,
                         (Value::UInt(x), BoolSym::LessThan, Value::UInt(y)) => x < y,
-                        (Value::UInt(x), BoolSym::LessThan, Value::Int(y))
-                            if x <= i64::MAX as u64 =>
-                        {
-                            (x as i64) < y
+                        (Value::UInt(x), BoolSym::LessThan, Value::Int(y)) => {
+                            (x as i128) < (y as i128)
                         }
-                        (Value::Int(x), BoolSym::LessThan, Value::UInt(y))
-                            if y <= i64::MAX as u64 =>
-                        {
-                            x < y as i64
+                        (Value::Int(x), BoolSym::LessThan, Value::UInt(y)) => {
+                            (x as i128) < (y as i128)
                         }
                         (_, BoolSym::LessThan, _) => false,
                         (Value::Float(x), BoolSym::LessThanOrEqual, Value::Float(y)) => x <= y,
                         (Value::Int(x), BoolSym::LessThanOrEqual, Value::Int(y)) => x <= y,
                         (Value::UInt(x), BoolSym::LessThanOrEqual, Value::UInt(y)) => x <= y,
-                        (Value::UInt(x), BoolSym::LessThanOrEqual, Value::Int(y))
-                            if x <= i64::MAX as u64 =>
-                        {
-                            x as i64 <= y
+                        (Value::UInt(x), BoolSym::LessThanOrEqual, Value::Int(y)) => {
+                            (x as i128) <= (y as i128)
                         }
-                        (Value::Int(x), BoolSym::LessThanOrEqual, Value::UInt(y))
-                            if y <= i64::MAX as u64 =>
-                        {
-                            x <= y as i64
+                        (Value::Int(x), BoolSym::LessThanOrEqual, Value::UInt(y)) => {
+                            (x as i128) <= (y as i128)
                         }
                         (_, BoolSym::LessThanOrEqual, _) => false,
                         _ => unreachable!(),
